@@ -129,7 +129,7 @@ func (r *recorder) reenter() {
 		switch op.Kind {
 		case OpPushMsg:
 			id := len(h.Ops) + j
-			m := &auparse.AuditMessage{RecordType: auparse.AuditMessageType(op.Type), Sequence: op.Seq, Timestamp: time.Unix(1700000000, 0), RawData: RawBody(op.Seq, id), Payload: id}
+			m := &auparse.AuditMessage{RecordType: auparse.AuditMessageType(op.Type), Sequence: op.Seq, Timestamp: time.Unix(1700000000+int64(id%5), int64(id%1000)*1e6), RawData: RawBody(op.Seq, id), Payload: id}
 			r.t.pushedPtr[m] = id
 			r.r.PushMessage(m)
 		case OpMaintain:
@@ -216,9 +216,11 @@ func Execute(h *History, o ExecOpts) (tr *Trace) {
 			m := &auparse.AuditMessage{
 				RecordType: auparse.AuditMessageType(op.Type),
 				Sequence:   op.Seq,
-				Timestamp:  time.Unix(1700000000, 0),
-				RawData:    RawBody(op.Seq, k),
-				Payload:    k,
+				// records of one sequence carry different timestamps on purpose: events are identified by the
+				// sequence number alone
+				Timestamp: time.Unix(1700000000+int64(k%5), int64(k%1000)*1e6),
+				RawData:   RawBody(op.Seq, k),
+				Payload:   k,
 			}
 			tr.pushedPtr[m] = k
 			r.PushMessage(m)
